@@ -219,3 +219,96 @@ func (m *Map) Clear() {
 	}
 	m.m = map[any]any{}
 }
+
+// Pool models sync.Pool. Put pushes; Get is a scheduling point and, when the pool holds something, an environment
+// choice: alternative 0 hands out the most recently put item (what the runtime does for a goroutine that stays on its
+// P), alternative 1 - one unit of the fault budget - behaves as after a garbage collection: the pool is empty.
+type Pool struct {
+	New   func() any
+	items []any
+	o     mc.Obj
+}
+
+func (p *Pool) Get() any {
+	mc.Yield("pool.Get")
+	mc.EvWrite(&p.o, "pool.get", uint64(len(p.items)))
+	if n := len(p.items); n > 0 {
+		if mc.Choose("pool.Get.env", 2) == 0 {
+			x := p.items[n-1]
+			p.items = p.items[:n-1]
+			return x
+		}
+		p.items = nil
+	}
+	if p.New != nil {
+		return p.New()
+	}
+	return nil
+}
+
+func (p *Pool) Put(x any) {
+	if x == nil {
+		return
+	}
+	mc.Yield("pool.Put")
+	mc.EvWrite(&p.o, "pool.put", uint64(len(p.items)))
+	p.items = append(p.items, x)
+}
+
+// ZZVerifReset empties the pool (a fresh process starts with empty pools).
+func (p *Pool) ZZVerifReset() { p.items = nil }
+
+// Cond models sync.Cond over a vsync Locker: Wait releases the lock and parks until a Signal/Broadcast issued after it.
+type Cond struct {
+	L       Locker
+	o       mc.Obj
+	tickets []*bool
+}
+
+func NewCond(l Locker) *Cond { return &Cond{L: l} }
+
+func (c *Cond) Wait() {
+	woken := false
+	c.tickets = append(c.tickets, &woken)
+	c.L.Unlock()
+	mc.Block("cond.Wait", func() bool { return woken })
+	mc.EvRead(&c.o, "cond.wait", 0)
+	c.L.Lock()
+}
+
+func (c *Cond) Signal() {
+	mc.Yield("cond.Signal")
+	mc.EvWrite(&c.o, "cond.signal", 0)
+	if len(c.tickets) > 0 {
+		*c.tickets[0] = true
+		c.tickets = c.tickets[1:]
+	}
+}
+
+func (c *Cond) Broadcast() {
+	mc.Yield("cond.Broadcast")
+	mc.EvWrite(&c.o, "cond.broadcast", 0)
+	for _, t := range c.tickets {
+		*t = true
+	}
+	c.tickets = nil
+}
+
+// OnceFunc, OnceValue and OnceValues as in package sync, built on the modelled Once.
+func OnceFunc(f func()) func() {
+	var once Once
+	return func() { once.Do(f) }
+}
+
+func OnceValue[T any](f func() T) func() T {
+	var once Once
+	var v T
+	return func() T { once.Do(func() { v = f() }); return v }
+}
+
+func OnceValues[T1, T2 any](f func() (T1, T2)) func() (T1, T2) {
+	var once Once
+	var a T1
+	var b T2
+	return func() (T1, T2) { once.Do(func() { a, b = f() }); return a, b }
+}
